@@ -1621,7 +1621,10 @@ def k23_filler(core, rep):
         sl = [x for x in ast.walk(r.ast) if isinstance(x, ast.Subscript) and isinstance(x.slice, ast.Slice)]
         rep.ob('K23c', 'TextPDFField/no-slicing', not sl, 'TextPDFField.value() returns a slice of the text (silent truncation)', _w(tv, r.ast))
         doms = [n for n in g.nodes if n.kind == 'F' and n.label == '' and g.dominates(n, r)]
-        ok = any(_too_long_test(n.ast) for n in doms)
+        # a local that holds len(<name>) may stand for it in the test
+        len_locals = {x.targets[0].id for x in ast.walk(tv.node) if isinstance(x, ast.Assign) and len(x.targets) == 1 and isinstance(x.targets[0], ast.Name)
+                      and isinstance(x.value, ast.Call) and isinstance(x.value.func, ast.Name) and x.value.func.id == 'len' and len(x.value.args) == 1 and isinstance(x.value.args[0], ast.Name)}
+        ok = any(_too_long_test(n.ast, len_locals) for n in doms)
         rep.ob('K23c', 'TextPDFField/returns-only-when-it-fits', ok, 'TextPDFField.value() can return a value longer than max_length', _w(tv, r.ast))
     raises = [n for n in ast.walk(tv.node) if isinstance(n, ast.Raise) and isinstance(n.exc, ast.Call) and call_name(n.exc) == 'PDFValueTooLong']
     rep.ob('K23c', 'TextPDFField/too-long-raises', len(raises) == 1, 'an over-long value does not raise PDFValueTooLong', _w(tv))
@@ -1756,7 +1759,7 @@ def _none_or_blank(test, v):
     return unparse(b.values[0]) == f'isinstance({v}, str)' and unparse(b.values[1]) in (f"{v}.strip() == ''", f'{v}.strip() == ""', f'len({v}.strip()) == 0', f'not {v}.strip()')
 
 
-def _too_long_test(test):
+def _too_long_test(test, len_locals=()):
     """test is: self.max_length is not None and len(x) > self.max_length (its
     falsity means: no limit, or the text fits)"""
     if not (isinstance(test, ast.BoolOp) and isinstance(test.op, ast.And) and len(test.values) == 2):
@@ -1766,7 +1769,8 @@ def _too_long_test(test):
         return False
     def _plain_len(e):
         # len(<name>): the length of the text itself, not of a shortened copy (len(value.lstrip('-')) lets one character more through)
-        return isinstance(e, ast.Call) and isinstance(e.func, ast.Name) and e.func.id == 'len' and len(e.args) == 1 and isinstance(e.args[0], ast.Name)
+        return (isinstance(e, ast.Call) and isinstance(e.func, ast.Name) and e.func.id == 'len' and len(e.args) == 1 and isinstance(e.args[0], ast.Name)) \
+            or (isinstance(e, ast.Name) and e.id in len_locals)
     return isinstance(b, ast.Compare) and len(b.ops) == 1 and (
         (isinstance(b.ops[0], ast.Gt) and _plain_len(b.left) and unparse(b.comparators[0]) == 'self.max_length')
         or (isinstance(b.ops[0], ast.Lt) and _plain_len(b.comparators[0]) and unparse(b.left) == 'self.max_length'))
